@@ -11,6 +11,9 @@ Section ProxyProofs.
   Lemma stream_map_data ws : stream (map Data ws) = concat ws.
   Proof. induction ws as [|w r IH]; simpl; congruence. Qed.
 
+  Lemma neof_map_data ws : neof (map Data ws) = 0.
+  Proof. induction ws; simpl; auto. Qed.
+
   Lemma concat_writes_of rs : concat (writes_of rs) = concat (map fst rs).
   Proof.
     unfold writes_of. induction rs as [|[bs e] r IH]; simpl; auto.
@@ -81,7 +84,8 @@ Section ProxyProofs.
           intro E; inversion E; subst.
         + right. split; [discriminate|reflexivity].
         + left. apply read_all_sound in Er as (A & B & C). simpl in B, C. rewrite stream_map_data in B, C.
-          split; auto. split; auto. exists buf. repeat split; auto; apply A. }
+          split; auto. split; auto. exists buf. repeat split; auto; try apply A.
+          intro L. apply C; auto. apply neof_map_data. }
     destruct limit as [l|].
     - destruct (d_sz d >? l)%Z.
       + intro E; inversion E; subst. right. split; [discriminate|reflexivity].
@@ -134,5 +138,24 @@ Section ProxyProofs.
              destruct bs; simpl; [apply IH|]. f_equal. f_equal. apply IH.
         * split; auto. split; [exists (rest1 ++ rest0); rewrite app_assoc, <- B1; exact B0|].
           split; [discriminate|]. split; auto.
+  Qed.
+
+  (* over all fetch histories: whatever the cache holds matches its descriptor, and a
+     fetch served from it hands out (a prefix of) matching bytes *)
+  Theorem proxy_reach_ok m : proxy_reach H m -> mem_ok H m.
+  Proof.
+    induction 1 as [|limit stop m d comb evs ks rs ce m' R IH E].
+    - intros d bs; discriminate.
+    - exact (proj1 (proxy_fetch_spec limit stop m d comb evs ks rs ce m' IH E)).
+  Qed.
+
+  Theorem proxy_history_hit limit stop m d comb evs ks rs ce m' bs :
+    proxy_reach H m -> mem_get m d = Some bs ->
+    proxy_fetch H limit stop m d comb evs ks = ((rs, ce), m') ->
+    matches_desc H (d_dg d) (d_sz d) bs /\ m' = m /\ ce = None /\
+    exists rest, bs = concat (map fst rs) ++ rest.
+  Proof.
+    intros R G E. pose proof (proxy_fetch_spec limit stop m d comb evs ks rs ce m' (proxy_reach_ok m R) E) as [_ S].
+    rewrite G in S. exact S.
   Qed.
 End ProxyProofs.
